@@ -187,6 +187,14 @@ def write_replay(prop, seed, n, payload):
     return os.path.relpath(path, ROOT)
 
 
+def _classes(violations):
+    h = {}
+    for (c, i, m, j) in violations:
+        k = f"{j.get('finding')}|{(m.get('regions') if isinstance(m, dict) else None)}|{j.get('tag')}"
+        h[k] = h.get(k, 0) + 1
+    return dict(sorted(h.items(), key=lambda kv: -kv[1])[:40])
+
+
 def case_size(c):
     return len(json.dumps(c, default=str))
 
@@ -246,6 +254,7 @@ def run_check(plugin, prop, tier, seed, skip_lean=False) -> int:
         path = write_replay(prop, seed, 0, {
             'property': prop, 'kind': 'failing-input', 'what': j['pfail'], 'case': c, 'impl': i, 'model': m,
             'finding_class': j.get('finding'), 'n_failing_cases_this_run': len(violations),
+            'failure_classes_this_run': _classes(violations),
             'proof_broken': lean['proof_broken'], 'n_correspondence_disagreements': len(corr_breaks),
             'replay_cmd': f'./check {prop} --replay <this file>'})
         lines.append(f'VIOLATION property={prop} replay={path}')
